@@ -116,6 +116,7 @@ def run(rep: vlib.Reporter, tier: str, seed: int) -> None:
     specs, gstats = gen_specs(rng, 120 if big else 16)
     found = False
     cases: List[Dict[str, Any]] = []
+    cf_decisions: List[Any] = []
     n_mp = 0
     for spec in specs:
         uni = Universe(spec, GateListener())
@@ -129,12 +130,19 @@ def run(rep: vlib.Reporter, tier: str, seed: int) -> None:
         base = run_observed(sess)
         if base["status"] != "ok":
             continue
+        # free-running THREADING only on plans without unordered conflicting steps: on the others the recorded race (C01 / C06
+        # finding unordered-conflicting-steps) can make a step fail with a missing column BEFORE the injected fault is reached,
+        # and the call then - correctly - reports that failure instead (false alarm of vp check 4)
+        from harness import mp_obs
+        foot_ = {int(k): (v[0], list(v[1])) for k, v in base["foot"].items()}
+        threading_ok = mp_obs.conflict_free_py(plan, foot_)
+        cf_decisions.append((plan, foot_, threading_ok))
         flts = faults_for(plan, spec)
         mp_ok: Optional[bool] = None
         if not big:
             flts = rng.sample(flts, min(len(flts), 6))
         for f in flts:
-            for mode_name in ("SYNC", "THREADING"):
+            for mode_name in (("SYNC", "THREADING") if threading_ok else ("SYNC",)):
                 for stream in (False, True):
                     if not big and stream and rng.random() < 0.5:
                         continue
@@ -152,7 +160,7 @@ def run(rep: vlib.Reporter, tier: str, seed: int) -> None:
         if all(g.get("cfw") for g in spec["groups"]) and not spec.get("links"):
             aspec = api_variant(spec)
             try:
-                for mode_name in ("SYNC", "THREADING"):
+                for mode_name in (("SYNC", "THREADING") if threading_ok else ("SYNC",)):
                     r = run_fault(aspec, {"kind": "api_missing", "sid": 0, "msg": "not found"}, mode_name, False)
                     cases.append({"spec": aspec, "fault": {"kind": "api_missing"}, "mode": mode_name, "stream": False, **r})
                     for stream in (False, True):
@@ -163,7 +171,7 @@ def run(rep: vlib.Reporter, tier: str, seed: int) -> None:
         # declared type mismatch on a requested derived feature
         tspec = json.loads(json.dumps(spec))
         tspec["request"] = [{"name": (r if isinstance(r, str) else r["name"]), "type": "STRING"} for r in tspec["request"][:1]]
-        for mode_name in ("SYNC", "THREADING"):
+        for mode_name in (("SYNC", "THREADING") if threading_ok else ("SYNC",)):
             try:
                 r = run_fault(tspec, {"kind": "type", "sid": -1, "msg": "DataTypeMismatch"}, mode_name, False)
                 cases.append({"spec": tspec, "fault": {"kind": "type"}, "mode": mode_name, "stream": False, **r})
@@ -172,7 +180,16 @@ def run(rep: vlib.Reporter, tier: str, seed: int) -> None:
                               "status": "raised", "carries_message": True, "wall": 0, "begin": [], "raised": [], "plan": None})
 
     dist: Dict[str, Any] = {"specs": len(specs), "cases": len(cases), "by_kind": {}, "by_mode": {}, "max_wall": 0.0,
-                            "raised_with_message": 0}
+                            "raised_with_message": 0, "plans_with_threading_cases": sum(1 for d in cf_decisions if d[2]),
+                            "plans_sync_only_unordered_conflicts": sum(1 for d in cf_decisions if not d[2])}
+    # the online decisions of the python mirror of conflict_free, re-validated by the Coq definition
+    if cf_decisions:
+        from harness.c01 import cq_foot, EXTRA as C01_EXTRA
+        dterms = [f"(({cq_plan(pl)}, {cq_foot(ft)}), {'true' if ok_ else 'false'})" for pl, ft, ok_ in cf_decisions]
+        for i in vlib.run_cases("C08", "cf_mirror", REQ, "chk_mirror", dterms, case_type="(plan * foot) * bool",
+                                extra_defs=C01_EXTRA + "\nDefinition chk_mirror (c : (plan * foot) * bool) := Bool.eqb (conflict_free (fst (fst c)) (snd (fst c))) (snd c).\n")[0][:3]:
+            rep.finding(f"cf-mirror:{dterms[i][:160]}", "harness/mp_obs.conflict_free_py disagrees with Model/OrchCheck.conflict_free", {"term": dterms[i]}, found_input=False)
+            found = True
     sync_terms, sync_idx = [], []
     for i, c in enumerate(cases):
         k = c["fault"]["kind"]
